@@ -1,10 +1,12 @@
 package props
 
 import (
+	"bytes"
 	"context"
 	"fmt"
 	"io"
 	"net/http"
+	"os"
 	"strings"
 	"sync"
 	"time"
@@ -123,18 +125,19 @@ func (f *fakeStream) backendFinish(st *status.Status) {
 
 // c10Script: what client and back-end do.
 type c10Script struct {
-	Shape     string // unary cs ss bidi
-	Front     string // grpc http
-	N         int    // messages the client sends
-	HalfClose bool   // client half-closes after its messages (else: only after it got the final status)
-	ReadAll   bool   // back-end reads until EOF (else exactly R messages)
-	R         int
-	K         int  // replies
-	PingPong  bool // bidi: reply after each request
-	Code      codes.Code
-	Msg       string
-	Details   bool
-	MD        string // none ascii two bin
+	Shape      string // unary cs ss bidi
+	Front      string // grpc http
+	N          int    // messages the client sends
+	HalfClose  bool   // client half-closes after its messages (else: only after it got the final status)
+	ReadAll    bool   // back-end reads until EOF (else exactly R messages)
+	R          int
+	K          int  // replies
+	PingPong   bool // bidi: reply after each request
+	Code       codes.Code
+	Msg        string
+	Details    bool
+	MD         string // none ascii two bin
+	ChunkLimit int    // > 0: the mux's receive limit (HttpBody uploads are cut into chunks of this size)
 }
 
 func (s c10Script) name() string {
@@ -207,25 +210,31 @@ func newC10Sys(sc c10Script) *c10Sys {
 	// with its reflection exchange is by far the most expensive step) and shared by all
 	// executions: requests do not change the routing state, and all per-call state lives in
 	// the c10Sys the back-end callbacks are pointed at.
-	if c10Shared == nil {
-		m, err := larking.NewMux()
+	sh := c10SharedBy[sc.ChunkLimit]
+	if sh == nil {
+		var mopts []larking.MuxOption
+		if sc.ChunkLimit > 0 {
+			mopts = append(mopts, larking.MaxReceiveMessageSizeOption(sc.ChunkLimit))
+		}
+		m, err := larking.NewMux(mopts...)
 		if err != nil {
 			panic(err)
 		}
 		b := env.NewBackend("be", []protoreflect.FileDescriptor{t.fd}, []string{"vs.T"})
+		sh = &c10SharedT{mux: m, backend: b}
 		b.Unary = func(ctx context.Context, method string, req, reply proto.Message) error {
-			return c10Shared.cur.unary(ctx, method, req, reply)
+			return sh.cur.unary(ctx, method, req, reply)
 		}
 		b.NewStream = func(ctx context.Context, desc *grpc.StreamDesc, method string) (grpc.ClientStream, error) {
-			return c10Shared.cur.newStream(ctx, desc, method)
+			return sh.cur.newStream(ctx, desc, method)
 		}
 		if err := m.RegisterConn(context.Background(), b.Conn()); err != nil {
 			panic(err)
 		}
-		c10Shared = &c10SharedT{mux: m, backend: b}
+		c10SharedBy[sc.ChunkLimit] = sh
 	}
-	c10Shared.cur = s
-	s.mux, s.backend = c10Shared.mux, c10Shared.backend
+	sh.cur = s
+	s.mux, s.backend = sh.mux, sh.backend
 	s.unary = func(ctx context.Context, method string, req, reply proto.Message) error {
 		s.unaryCalls++
 		s.backendMD, _ = metadata.FromOutgoingContext(ctx)
@@ -253,7 +262,7 @@ type c10SharedT struct {
 	cur     *c10Sys
 }
 
-var c10Shared *c10SharedT
+var c10SharedBy = map[int]*c10SharedT{} // by receive limit (0 = default)
 
 func (s *c10Sys) clientMsg(i int) proto.Message {
 	return s.t.newReq("", []byte(fmt.Sprintf("msg-%d", i)), 0)
@@ -533,8 +542,132 @@ func c10CodeSweep() []c10Script {
 	return out
 }
 
+// c10UploadScenario: a proxied google.api.HttpBody upload over the HTTP front (POST
+// /t/up/{filename}, body = raw bytes written by the client in `writes` pieces). larking cuts
+// the body into Up messages and forwards them while it relays the back-end's HttpBody replies
+// (one per received chunk) as the response body. The chunks are not copied by the message
+// layer the way a codec's Unmarshal copies: whatever memory they live in must stay intact
+// until the back-end has them.
+func c10UploadScenario(writes, size, limit int) *e3Scenario {
+	name := fmt.Sprintf("http-upload-httpbody-w%d-size%d-chunk%d", writes, size, limit)
+	piece := func(i int) []byte {
+		b := make([]byte, size)
+		for k := range b {
+			b[k] = byte('a' + (i*5+k)%23)
+		}
+		return append([]byte(fmt.Sprintf("<%d>", i)), b...)
+	}
+	server := e3Thread{Name: "front-server", Body: func(sys any) {
+		s := sys.(*c10Sys)
+		req := newPostRequest("/t/up/file.bin", http.Header{"Content-Type": {"application/x-custom"}}, s.body, -1)
+		s.rec.OnWrite = func([]byte) { sched.Point("front response write", nil) }
+		p, txt := guard(func() { s.mux.ServeHTTP(s.rec, req) })
+		s.rec.Finish()
+		s.body.Close()
+		s.front = &callResult{Panicked: p && !strings.Contains(txt, "abortT"), Panic: txt, HTTPCode: s.rec.Code, Header: s.rec.Snap, Body: s.rec.Body.Bytes(), Rec: s.rec}
+		s.returned = true
+	}}
+	client := e3Thread{Name: "client", Body: func(sys any) {
+		s := sys.(*c10Sys)
+		for i := 0; i < writes; i++ {
+			sched.Point("client writes a piece of the upload", nil)
+			s.body.buf = append(s.body.buf, piece(i)...)
+		}
+		sched.Point("client half-closes", nil)
+		s.body.eof = true
+	}}
+	backend := e3Thread{Name: "backend", Body: func(sys any) {
+		s := sys.(*c10Sys)
+		sched.Point("backend accepts the stream", func() bool { return s.streamReady || s.returned })
+		if !s.streamReady {
+			return
+		}
+		f := s.stream
+		for i := 0; ; i++ {
+			m, err := f.backendRecv()
+			if err == io.EOF {
+				s.backendEOF = true
+				break
+			}
+			if err != nil {
+				s.backendErr = err
+				break
+			}
+			s.backendGot = append(s.backendGot, m)
+			ack := dynamicpb.NewMessage(s.t.body)
+			ack.Set(s.t.body.Fields().ByName("data"), protoreflect.ValueOfBytes([]byte(fmt.Sprintf("[ack %d of a chunk]", i))))
+			if i == 0 {
+				ack.Set(s.t.body.Fields().ByName("content_type"), protoreflect.ValueOfString("application/x-ack"))
+			}
+			f.backendSend(ack)
+		}
+		f.backendFinish(status.New(codes.OK, ""))
+	}}
+	check := func(sys any, x *sched.S) []e3Fail {
+		s := sys.(*c10Sys)
+		fr := s.front
+		if fr == nil {
+			return []e3Fail{{"front-call-did-not-finish", ""}}
+		}
+		if fr.Panicked {
+			return []e3Fail{{"panic", fr.Panic}}
+		}
+		var fails []e3Fail
+		var want, got, wantBody []byte
+		for i := 0; i < writes; i++ {
+			want = append(want, piece(i)...)
+		}
+		for i, m := range s.backendGot {
+			r := m.ProtoReflect()
+			// the proxy builds its messages from reflection descriptors: read by field number
+			var data []byte
+			r.Range(func(fd protoreflect.FieldDescriptor, v protoreflect.Value) bool {
+				if fd.Number() == 2 { // Up.file
+					v.Message().Range(func(fd2 protoreflect.FieldDescriptor, v2 protoreflect.Value) bool {
+						if fd2.Number() == 2 { // HttpBody.data
+							data = v2.Bytes()
+						}
+						return true
+					})
+				}
+				if fd.Number() == 1 && i == 0 && v.String() != "file.bin" {
+					fails = append(fails, e3Fail{"backend-message-differs", fmt.Sprintf("filename %q at the back-end", v.String())})
+				}
+				return true
+			})
+			got = append(got, data...)
+			wantBody = append(wantBody, []byte(fmt.Sprintf("[ack %d of a chunk]", i))...)
+		}
+		if os.Getenv("VERIF_E3_DEBUG") != "" {
+			fmt.Printf("debug: upload chunks at back-end=%d bytes=%q response=%q\n", len(s.backendGot), got, fr.Body)
+		}
+		if !bytes.Equal(got, want) {
+			fails = append(fails, e3Fail{"backend-message-differs", fmt.Sprintf("the client uploaded %q, the back-end received (in %d chunks) %q", truncS(string(want), 200), len(s.backendGot), truncS(string(got), 200))})
+		}
+		if !s.backendEOF {
+			fails = append(fails, e3Fail{"backend-never-saw-half-close", fmt.Sprintf("err=%v", s.backendErr)})
+		}
+		if fr.HTTPCode != 200 {
+			fails = append(fails, e3Fail{"final-status-differs", fmt.Sprintf("the back-end finished OK, the HTTP client sees %d %s", fr.HTTPCode, truncS(string(fr.Body), 100))})
+		} else if !bytes.Equal(fr.Body, wantBody) {
+			fails = append(fails, e3Fail{"reply-differs", fmt.Sprintf("response body %q, the back-end's replies concatenate to %q", truncS(string(fr.Body), 200), truncS(string(wantBody), 200))})
+		}
+		return fails
+	}
+	return &e3Scenario{Name: name, Desc: "proxied HttpBody upload over HTTP: " + name, NoWGAddPoints: true,
+		Setup: func() any {
+			return newC10Sys(c10Script{Shape: "bidi", Front: "http", HalfClose: true, ReadAll: true, PingPong: true, ChunkLimit: limit})
+		},
+		Threads: []e3Thread{server, client, backend},
+		Check:   check, MaxSteps: 20000}
+}
+
 func c10Scenarios(thorough bool) []*e3Scenario {
 	var scs []*e3Scenario
+	// receive limit 100 > the 64-byte capacity of a fresh pooled buffer: larking only recycles
+	// buffers smaller than the limit, so with these sizes the short last chunk sits in a buffer
+	// that goes back to the pool while the chunk is still on its way to the back-end
+	scs = append(scs, c10UploadScenario(2, 6, 0), c10UploadScenario(1, 127, 100), c10UploadScenario(2, 60, 100))
 	seen := map[string]bool{}
 	for _, s := range c10Scripts(thorough) {
 		seen[s.name()] = true
@@ -558,7 +691,7 @@ func runC10(c *Ctx) {
 	if c.Thorough() {
 		bound, per = 4, 10*time.Minute
 	}
-	r.Rule(fmt.Sprintf("call scripts on the four shapes of a service discovered by reflection from a scripted back-end: front {gRPC, HTTP/JSON} × client {n messages, half-closes or waits for the final status} × back-end {reads r messages or until EOF, sends k replies (batch or ping-pong), finishes with OK / NotFound / Internal+details / PermissionDenied before the first read; plus a sweep of every final status code 1..17 on every shape, with and without a reply before it (preemption bound 1)} × request metadata {none, one value, two values, -bin}; threads: front server (ServeHTTP), client, back-end script, larking's pump goroutine; every interleaving with at most %d preemptions (bounds iterated from 0); oracle per schedule: the back-end received exactly what it would receive directly (messages, EOF, metadata), the client received exactly the back-end's replies and final status, no panic, no deadlock (a hang is a deadlock of the controlled threads); distinct = (script, outcome)", bound))
+	r.Rule(fmt.Sprintf("call scripts on the four shapes of a service discovered by reflection from a scripted back-end: front {gRPC, HTTP/JSON} × client {n messages, half-closes or waits for the final status} × back-end {reads r messages or until EOF, sends k replies (batch or ping-pong), finishes with OK / NotFound / Internal+details / PermissionDenied before the first read; plus proxied google.api.HttpBody uploads over HTTP (default and small receive limits so that the body is forwarded in several chunks while replies are relayed); plus a sweep of every final status code 1..17 on every shape, with and without a reply before it (preemption bound 1)} × request metadata {none, one value, two values, -bin}; threads: front server (ServeHTTP), client, back-end script, larking's pump goroutine; every interleaving with at most %d preemptions (bounds iterated from 0); oracle per schedule: the back-end received exactly what it would receive directly (messages, EOF, metadata), the client received exactly the back-end's replies and final status, no panic, no deadlock (a hang is a deadlock of the controlled threads); distinct = (script, outcome)", bound))
 	r.Assume("the back-end stream follows grpc-go's documented ClientStream contract (SendMsg -> io.EOF once done, RecvMsg -> message / io.EOF / status error); validated against real grpc-go on both sides by the conformance pass", "response header/trailer metadata is not part of the property")
 	runScenarios(c, c10Scenarios(c.Thorough()), bound, per, 0)
 	if c.Shards == 0 {
